@@ -24,6 +24,17 @@ WORKSPACE = {
 }
 
 
+# library calls that are unmodelled (opaque) but cannot observe chain state
+HARMLESS_LIB = {
+    "cosmwasm_std::StdError::generic_err", "std::fmt::Arguments::new", "std::fmt::format", "core::fmt::rt::Argument::new_display",
+    "core::fmt::rt::Argument::new_debug", "std::fmt::Formatter::write_str", "std::fmt::Formatter::write_fmt", "std::fmt::Write::write_char",
+    "core::str::<impl str>::parse", "core::num::<impl i128>::unsigned_abs", "core::num::<impl i64>::unsigned_abs",
+    "core::num::<impl i32>::unsigned_abs", "core::num::<impl i16>::unsigned_abs", "core::num::<impl i8>::unsigned_abs",
+    "std::ops::Index::index", "std::str::FromStr::from_str", "core::str::<impl str>::chars", "std::iter::Iterator::all",
+    "cosmwasm_std::Response::new", "std::default::Default::default",
+}
+
+
 class TooManyPaths(Exception):
     pass
 
@@ -107,6 +118,14 @@ CMP = {"lt": "lt", "le": "le", "gt": "gt", "ge": "ge", "eq": "eq", "ne": "ne"}
 FLIP = {"lt": "ge", "ge": "lt", "gt": "le", "le": "gt", "eq": "ne", "ne": "eq"}
 
 U128 = "cosmwasm_std::Uint128"
+# pure library functions: equal arguments give equal results wherever they are called
+PURE_LIB = {
+    "cosmwasm_std::Timestamp::seconds": "ts.seconds", "cosmwasm_std::Timestamp::plus_seconds": "ts.plus_seconds",
+    "cosmwasm_std::Timestamp::minus_seconds": "ts.minus_seconds", "cosmwasm_std::Timestamp::from_seconds": "ts.from_seconds",
+    "cosmwasm_std::Timestamp::nanos": "ts.nanos", "core::num::<impl u64>::checked_sub": "u64.checked_sub",
+    "core::num::<impl u64>::to_be_bytes": "u64.to_be_bytes", "core::num::<impl usize>::min": "min",
+    "std::cmp::min": "min", "std::cmp::max": "max", "std::cmp::Ord::min": "min", "std::cmp::Ord::max": "max",
+}
 
 
 def strip_generics(name):
@@ -146,6 +165,8 @@ class Evaluator:
         self.cache = {}
         self.unmodelled = {}
         self.in_progress = set()
+        self._pure = {}
+        self._pure_stack = set()
 
     # -- public ----------------------------------------------------------
     def paths(self, fn):
@@ -160,6 +181,46 @@ class Evaluator:
         if isinstance(r, Exception):
             raise r
         return r
+
+    def pure(self, fn):
+        """a workspace function is pure when it has no `&mut` parameter and all its calls are modelled
+        library operations or pure workspace functions"""
+        r = self._pure.get(fn.key)
+        if r is not None:
+            return r
+        if fn.key in self.in_progress or fn.key in self._pure_stack:
+            return False
+        for i in range(fn.arg_count):
+            ty = fn.locals[i + 1]["ty"]
+            if ty.startswith("&mut ") or "Deps" in ty or "dyn cosmwasm_std::Storage" in ty or "QuerierWrapper" in ty or "dyn cosmwasm_std::Api" in ty:
+                self._pure[fn.key] = False
+                return False
+        self._pure_stack.add(fn.key)
+        try:
+            try:
+                ps = self.paths(fn)
+            except TooManyPaths:
+                ps = None
+            ok = ps is not None
+            if ok:
+                for p in ps:
+                    for e in p.events:
+                        t = tag(e.result)
+                        if e.target is not None:
+                            if not self.pure(e.target):
+                                ok = False
+                        elif t == "call":
+                            # an unmodelled library call (could read anything)
+                            if e.name not in HARMLESS_LIB:
+                                ok = False
+                        if not ok:
+                            break
+                    if not ok:
+                        break
+        finally:
+            self._pure_stack.discard(fn.key)
+        self._pure[fn.key] = ok
+        return ok
 
     def try_paths(self, fn):
         try:
@@ -759,6 +820,8 @@ class _Run:
                     return sym.op("is_zero", a0)
                 if nm == "u128":
                     return a0
+            if name in PURE_LIB:
+                return sym.op(PURE_LIB[name], *args)
             if name == "std::boxed::Box::new_uninit":
                 return mk("box", (site, occ))
             if name == "std::boxed::box_assume_init_into_vec_unsafe":
@@ -801,6 +864,10 @@ class _Run:
             self.havoc(st, t, raw, r)
             return r
         # ---- workspace function: opaque here, expanded on demand ----
+        if self.ev.pure(target_fn):
+            # no storage / querier / &mut access anywhere below: the result depends on the arguments only
+            r = sym.call(name, args, "", 0)
+            return r
         r = sym.call(name, args, site, occ)
         self.havoc(st, t, raw, r)
         self.refine_mut_outputs(st, t, raw, args, target_fn)
